@@ -53,7 +53,7 @@ def make_app_json():
     """Second application: HttpRpc in, JsonDocument(complex_as=list) out, a class whose members carry
     protocol-specific attributes (order, sub_name) - so that the per-protocol caches (_attrcache,
     _sortcache) hold values that differ from the declaration defaults."""
-    from spyne import Application, Service, srpc, Integer, Unicode, ComplexModel, Array
+    from spyne import Application, Service, srpc, rpc, Integer, Unicode, ComplexModel, Array
     from spyne.protocol.http import HttpRpc
     from spyne.protocol.json import JsonDocument
 
@@ -78,10 +78,17 @@ def make_app_json():
 
         @srpc(Integer, _returns=Array(Point))
         def pts(n): return [Point(label=u'q', x=i, y=n) for i in range(2)]
+
+        @rpc(Unicode, _returns=Unicode)
+        def tag(ctx, v):
+            # a response header of this request only
+            ctx.transport.resp_headers['X-Tag'] = v
+            return v
     return Application([S], 'tns', name='App2', in_protocol=HttpRpc(), out_protocol=JsonDocument(complex_as=list))
 
 
-JSON_REQS = {'pt': ('/pt', 'n=3'), 'pt2': ('/pt', 'n=4'), 'seg': ('/seg', 'n=5'), 'pts': ('/pts', 'n=6')}
+JSON_REQS = {'pt': ('/pt', 'n=3'), 'pt2': ('/pt', 'n=4'), 'seg': ('/seg', 'n=5'), 'pts': ('/pts', 'n=6'),
+             'tag1': ('/tag', 'v=one'), 'tag2': ('/tag', 'v=two')}
 
 
 REQS = {
@@ -107,8 +114,8 @@ def env_for(name):
 
 def call(w, name):
     st = []
-    body = b''.join(w(env_for(name), lambda s, h, e=None: st.append(s)))
-    return st[0], body
+    body = b''.join(w(env_for(name), lambda s, h, e=None: st.append((s, h))))
+    return st[0][0], body, tuple(sorted((str(k).lower(), str(v)) for k, v in st[0][1]))
 
 
 def canon(body):
